@@ -256,19 +256,25 @@ func runC16(w *World, c *Check) {
 				}
 				v := st.val
 				detail = trunc(v, 160)
+				// the value side with its surrounding whitespace already removed is the same value
+				// (the parsers trim: rule C16.trim)
+				tvals := append([]string{}, vals...)
+				for _, x := range vals {
+					tvals = append(tvals, "strings.TrimSpace("+x+")")
+				}
 				switch want.kind {
 				case "bool":
-					if hit, ok := wrapsAny(v, "config.parseBoolean(", vals, ")#0"); ok {
+					if hit, ok := wrapsAny(v, "config.parseBoolean(", tvals, ")#0"); ok {
 						okVal, parserCall = true, "config.parseBoolean("+hit+")"
 					}
 				case "dur":
-					if hit, ok := wrapsAny(v, "config.parseDuration(", vals, ")#0"); ok {
+					if hit, ok := wrapsAny(v, "config.parseDuration(", tvals, ")#0"); ok {
 						okVal, parserCall = true, "config.parseDuration("+hit+")"
 					}
 				case "str":
 					_, okVal = wrapsAny(v, "strings.TrimSpace(", vals, ")")
 				case "fields":
-					_, okVal = wrapsAny(v, "strings.Fields(", vals, ")")
+					_, okVal = wrapsAny(v, "strings.Fields(", tvals, ")")
 				default:
 					okVal = containsAny(v, vals) || okVal
 				}
@@ -897,7 +903,21 @@ func rejectsWith(fa *FuncAn, from, avoid *ssa.BasicBlock, ctor string) bool {
 		if ret, ok := lastInstr(b).(*ssa.Return); ok {
 			rs := RetResults(ret)
 			if !compileRe(ctor).MatchString(fa.R.R(rs[len(rs)-1])) {
-				return false
+				// a verdict carried in a variable: on this (error) branch it is one of its non-nil
+				// alternatives, each of which must be of the constructor
+				n := 0
+				for _, l := range fa.LeafTerms(rs[len(rs)-1]) {
+					if l == "nil" {
+						continue
+					}
+					if !compileRe(ctor).MatchString(l) {
+						return false
+					}
+					n++
+				}
+				if n == 0 {
+					return false
+				}
 			}
 			continue
 		}
